@@ -8,6 +8,8 @@ import (
 	"net/http"
 	"time"
 
+	"github.com/gobwas/ws"
+
 	"github.com/buildbuildio/pebbles/merger"
 	"github.com/buildbuildio/pebbles/planner"
 	"github.com/buildbuildio/pebbles/queryer"
@@ -47,6 +49,7 @@ type vConn struct {
 	nframes int
 	raw     [][]byte
 	torn    bool
+	midMessage bool       // a frame reader is between the frames of one message
 	reset   bool          // the peer is gone (connection reset): every write fails although this side has not closed
 	wrote   chan struct{} // receives a token after every complete frame written by the gateway (buffered)
 }
@@ -119,17 +122,59 @@ func verifWsWrite(w io.Writer, p []byte) error {
 	return nil
 }
 
-// verifWsRead is what wsutil.ReadClientText / ReadServerText become
+// vFragMark: first byte of a frame that is not the last one of its message (RFC 6455 lets a peer split a
+// message into a text frame and continuation frames); every other entry of c.in is a whole message or a last frame
+const vFragMark = 0xFE
+
+// vSendFragmented delivers one message in two frames
+func (c *vConn) vSendFragmented(m []byte) bool {
+	h := len(m) / 2
+	return c.vSend(append([]byte{vFragMark}, m[:h]...)) && c.vSend(m[h:])
+}
+
+// verifWsRead is what wsutil.ReadClientText / ReadServerText become: whole messages, fragments reassembled
 func verifWsRead(rw io.ReadWriter) ([]byte, error) {
 	c := vConnOf(rw)
+	var msg []byte
+	for {
+		select {
+		case m, ok := <-c.in:
+			if !ok {
+				return nil, io.EOF
+			}
+			if len(m) > 0 && m[0] == vFragMark {
+				msg = append(msg, m[1:]...)
+				continue
+			}
+			return append(msg, m...), nil
+		case <-c.closeCh:
+			return nil, errors.New("use of closed network connection")
+		}
+	}
+}
+
+// verifWsReadFrame is what ws.ReadFrame becomes: one frame, whatever message it belongs to
+func verifWsReadFrame(r io.Reader) (ws.Frame, error) {
+	c := vConnOf(r.(io.ReadWriter))
 	select {
 	case m, ok := <-c.in:
 		if !ok {
-			return nil, io.EOF
+			return ws.Frame{}, io.EOF
 		}
-		return m, nil
+		f := ws.Frame{Header: ws.Header{Fin: true, OpCode: ws.OpText}}
+		if c.midMessage {
+			f.Header.OpCode = ws.OpContinuation
+		}
+		if len(m) > 0 && m[0] == vFragMark {
+			f.Header.Fin = false
+			m = m[1:]
+		}
+		c.midMessage = !f.Header.Fin
+		f.Payload = m
+		f.Header.Length = int64(len(m))
+		return f, nil
 	case <-c.closeCh:
-		return nil, errors.New("use of closed network connection")
+		return ws.Frame{}, errors.New("use of closed network connection")
 	}
 }
 
